@@ -549,6 +549,62 @@ fn utf8_cases(ctx: &mut Ctx) {
     }
 }
 
+/// SEIPDv1 messages read in BOTH read modes (check-first, the default, and streaming) for every
+/// payload length in windows around the places where the decrypted stream (inner packets + the
+/// 22-octet MDC) is a whole number of 8 KiB refills of the streaming decryptor (8192 + k*8170):
+/// "every payload length, including lengths on or next to internal-buffer boundaries"
+fn run_v1_read_modes(ctx: &mut Ctx, ring: &Ring) {
+    use pgp::composed::{DecryptionOptions, TheRing};
+    use pgp::types::Seipdv1ReadMode;
+    let mut rng = ChaCha8Rng::seed_from_u64(ctx.seed ^ 0xC011);
+    let windows: Vec<(usize, usize, bool)> = if ctx.thorough() {
+        vec![(8100, 8200, false), (16270, 16370, false), (24440, 24540, false), (7900, 8200, true), (16050, 16370, true), (0, 40, false)]
+    } else {
+        vec![(8150, 8175, false), (16318, 16338, false), (7985, 8075, true), (0, 3, false)]
+    };
+    for (lo, hi, signed) in windows {
+        for n in lo..=hi {
+            let data = gen::random_bytes(&mut rng, n);
+            let key = gen::random_bytes(&mut rng, 16);
+            let built = guarded(|| {
+                let mut b = MessageBuilder::from_bytes("", data.clone()).seipd_v1(&mut rng, SymmetricKeyAlgorithm::AES128);
+                b.set_session_key(key.clone().into()).ok()?;
+                b.encrypt_with_password(StringToKey::new_iterated(&mut rng, HashAlgorithm::Sha256, 0), &Password::from("pw")).ok()?;
+                if signed {
+                    b.sign(&ring.keys[0].primary_key, Password::empty(), HashAlgorithm::Sha256);
+                }
+                b.to_vec(&mut rng).ok()
+            });
+            let Ok(Some(msg)) = built else {
+                ctx.oracle("builder_succeeds", "MessageBuilder seipd_v1", &format!("n={n} signed={signed}"), false, "build failed");
+                continue;
+            };
+            for (mi, mode) in [Seipdv1ReadMode::default(), Seipdv1ReadMode::Streaming].into_iter().enumerate() {
+                let r = guarded(|| -> Result<(Vec<u8>, bool), String> {
+                    let m = Message::from_bytes(&msg[..]).map_err(|e| e.to_string())?;
+                    let pw = Password::from("pw");
+                    let the_ring = TheRing {
+                        secret_keys: vec![],
+                        key_passwords: vec![],
+                        message_password: vec![&pw],
+                        session_keys: vec![],
+                        decrypt_options: DecryptionOptions::new().set_seipdv1_read_mode(mode),
+                    };
+                    let (mut m, _) = m.decrypt_the_ring(the_ring, true).map_err(|e| format!("decrypt: {e}"))?;
+                    let mut out = Vec::new();
+                    m.read_to_end(&mut out).map_err(|e| format!("read: {e}"))?;
+                    let ok = if signed { m.verify(ring.keys[0].primary_key.public_key()).is_ok() } else { true };
+                    Ok((out, ok))
+                });
+                let good = matches!(&r, Ok(Ok((p, v))) if *p == data && *v);
+                ctx.oracle("payload_returned_unchanged", &format!("MessageBuilder seipd_v1 -> Message reader, read mode {}", ["check-first", "streaming"][mi]),
+                    &format!("n={n} signed={signed} msg_cksum={}", cksum(&msg)), good, &format!("{:?}", r.as_ref().map(|x| x.as_ref().map(|(p, v)| (p.len(), *v)))));
+                ctx.stat(&format!("v1_read_modes:{}", ["check_first", "streaming"][mi]));
+            }
+        }
+    }
+}
+
 pub fn run(ctx: &mut Ctx) {
     use crate::props::c01_e2e as e2e;
     let mut krng = ChaCha8Rng::seed_from_u64(4242);
@@ -562,6 +618,7 @@ pub fn run(ctx: &mut Ctx) {
             keys::ed448_x448(&mut krng),
         ],
     };
+    run_v1_read_modes(ctx, &ring);
     let mut rng = ChaCha8Rng::seed_from_u64(ctx.seed ^ 0xC01);
     let tmp = std::env::temp_dir().join(format!("rpgp-verif-c01-{}.bin", std::process::id()));
     let n_cfg = ctx.pick(400, 20000);
